@@ -31,6 +31,16 @@ def main(payload):
             a = s(x + shift, c['t']); b = s(x, 0.0)
             names = a.dtype.names[1:]
             r['wave_defect'] = float(max(np.max(np.abs(np.asarray(a[n]) - np.asarray(b[n])) / (np.abs(np.asarray(b[n])) + 1e-300)) for n in names))
+            # the same instance called again (other time, then the first time once more) must reproduce a fresh instance
+            t2 = 2.5 * c['t']
+            s(x, t2); again = s(x + shift, c['t'])
+            fresh = cls(**c['params'])(x + shift, c['t'])
+            # (a second construction in the same process may differ at the 1e-9 level: tolerances of the ODE / root solves seeded by
+            #  earlier solves - that is property C06's subject; here the reference is the first call of the same instance, and the fresh
+            #  instance is compared at 1e-6)
+            d_same = float(max(np.max(np.abs(np.asarray(again[n]) - np.asarray(a[n])) / (np.abs(np.asarray(a[n])) + 1e-300)) for n in names))
+            d_fresh = float(max(np.max(np.abs(np.asarray(again[n]) - np.asarray(fresh[n])) / (np.abs(np.asarray(fresh[n])) + 1e-300)) for n in names))
+            r['history_defect'] = max(d_same, d_fresh * 1e-3)
             r['flux'] = flux(s, s.Tm if c['kind'] == 'ED' else s.Tr)
             r['upstream'] = {'T': float(s.Tm[0]), 'rho': float(s.Density[0])}
             out.append(r)
@@ -51,13 +61,16 @@ Open Scope R_scope.
 
 def cases(rng, tier):
     out = []
-    n_ed, n_ned = (2, 0) if tier == 'quick' else (8, 3)
+    n_ed, n_ned = (2, 3) if tier == 'quick' else (8, 12)
     for i in range(n_ed + n_ned):
         kind = 'ED' if i < n_ed else 'nED'
         p = {'M0': round(rng.uniform(1.1, 3.0), 3), 'gamma': round(rng.uniform(1.3, 1.9), 4), 'Tref': round(rng.uniform(50, 400), 2),
              'Cv': round(1.4472799784454e12 * rng.uniform(0.5, 2.0), 1), 'rho0': round(rng.uniform(0.5, 2.0), 3)}
         if i == 0:
             p = {'M0': 1.2, 'Tref': 400.0}          # the former defect: non-default Tref
+        if kind == 'nED':
+            # scattering opacity comparable to / larger than the absorption opacity (default sigA = 577.35, sigS = 0)
+            p = {'M0': round(rng.uniform(1.2, 3.0), 3), 'sigS': round(577.35 * rng.choice([0.2, 1.0, 1.0, 3.0]), 2)}
         out.append({'kind': kind, 'params': p, 't': round(rng.uniform(1e-10, 1e-8), 12), 'xs': [round(rng.uniform(-0.01, 0.01), 6) for _ in range(5)]})
     ic = []
     for _ in range(6):
@@ -83,6 +96,9 @@ def unit_corr(rng, tier, prop):
         gam, Cv, Tref = P.get('gamma', 5.0 / 3.0), P.get('Cv', 1.4472799784454e12), P.get('Tref', 100.0)
         goals.append('Goal Rabs (rs_sound %s %s %s - %s) <= %s.\nProof. unfold rs_sound. interval with (i_prec 90). Qed.' % (
             qlit(Cv), qlit(Tref), qlit(gam), qlit(r['sound']), coq_num(Fraction(1, 10 ** 10) * Fraction(r['sound']))))
+        if r.get('history_defect', 0) > 1e-9:
+            dis.append({'solver': c['kind'] + '_Solver', 'params': P, 't': c['t'], 'history_defect': r['history_defect'],
+                        'why': 'the same instance called at t, 2.5 t and t again does not reproduce a fresh instance at t'})
         if r['wave_defect'] > 1e-9:
             dis.append({'solver': c['kind'] + '_Solver', 'params': P, 't': c['t'], 'points': c['xs'],
                         'why': 'solution at time t is not the time-0 profile displaced by M0*sound(gamma,Cv,Tref)*t', 'max_relative_difference': r['wave_defect']})
@@ -105,12 +121,19 @@ _last = {}
 
 def oracle(rng, tier, reasons):
     fails = []
+    if not _last.get('res'):
+        cs = cases(rng, tier)
+        res = H.run_real(REAL, cs, timeout=1800)
+        _last['res'] = list(zip(cs, res[:len(cs)]))
     for c, r in _last.get('res', []):
         if 'error' in r:
             continue
         for k, v in r['flux'].items():
-            if v > 1e-5:
+            if v > 1e-8:
                 fails.append({'solver': c['kind'] + '_Solver', 'params': c['params'], 'flux': k, 'max_relative_variation_along_profile': v})
+        if r.get('history_defect', 0) > 1e-9:
+            fails.append({'solver': c['kind'] + '_Solver', 'params': c['params'], 't': c['t'], 'history_defect': r['history_defect'],
+                          'why': 'the same instance called at t, 2.5 t and t again does not reproduce a fresh instance at t'})
         if r['wave_defect'] > 1e-9:
             fails.append({'solver': c['kind'] + '_Solver', 'params': c['params'], 't': c['t'], 'wave_defect': r['wave_defect']})
     return fails
